@@ -1,4 +1,112 @@
-Require Import IP.Base.Bytes IP.DM.Value IP.Codec.DagJson.
-Theorem C04_placeholder : forall (v : dm), v = v.
-Proof. reflexivity. Qed.
-Print Assumptions C04_placeholder.
+(* Props/C04.v — DAG-JSON encoding round-trips with kinds preserved and is deterministic.
+   Property theorems only; each is closed by [exact] of a lemma proved in Proofs/Json*.v.
+
+   Model: Codec/DagJson.v (+ Utf8.v, Base64.v).  External code that is not modelled concretely is
+   universally quantified and constrained by the hypotheses below (they are premises of the
+   theorems, never axioms):
+     A1  strconv.ParseFloat inverts refmt's emitFloat on finite floats
+     A2  emitFloat's text is a JSON number, has '.'/exponent iff the float is not an integer below
+         1e21, with at most 19 digits before it in that case       (pinned refmt v0.90)
+     A2R the same with '.'/exponent for EVERY finite float          (a repaired emitFloat)
+     CID cid.Decode inverts Cid.String() on defined CIDs, and CID strings are valid UTF-8 *)
+Require Import IP.Base.Bytes IP.DM.Value IP.Codec.Utf8 IP.Codec.Base64 IP.Codec.DagJson.
+Require Import IP.Proofs.JsonString IP.Proofs.JsonInt IP.Proofs.JsonBase64 IP.Proofs.JsonTok IP.Proofs.JsonAbs
+               IP.Proofs.JsonUnm IP.Proofs.JsonEnc IP.Proofs.JsonSort IP.Proofs.JsonMain IP.Proofs.JsonWitness.
+Open Scope N_scope.
+
+(* A1, A2, A2R, CID, nonintegral, any_float, roundtrip_for are defined at the end of Proofs/JsonMain.v:
+     roundtrip_for ... good := forall v, json_safe cid_ok good v = true -> jdepth v <= 1024 ->
+        exists bs, jenc ... v = Ok bs /\ jdecode ... bs = Ok (sort_maps bytes_ltb v, []) *)
+
+(* the full statement of the property *)
+Definition C04_full : Prop :=
+  forall fmt_float parse_float cid_str cid_parse cid_ok,
+    A1 fmt_float parse_float -> A2 fmt_float -> CID cid_str cid_parse cid_ok ->
+    roundtrip_for fmt_float parse_float cid_str cid_parse cid_ok any_float.
+
+(* proved: everything except integral floats below 1e21 *)
+Theorem C04_partial :
+  forall fmt_float parse_float cid_str cid_parse cid_ok,
+    A1 fmt_float parse_float -> A2 fmt_float -> CID cid_str cid_parse cid_ok ->
+    roundtrip_for fmt_float parse_float cid_str cid_parse cid_ok nonintegral.
+Proof. exact partial_lemma. Qed.
+Print Assumptions C04_partial.
+
+(* the faithful model refutes the full statement: under A2 an integral float never comes back as a float *)
+Theorem C04_refuted_float :
+  forall fmt_float parse_float cid_str cid_parse cid_ok,
+    A2 fmt_float -> ~ roundtrip_for fmt_float parse_float cid_str cid_parse cid_ok any_float.
+Proof. exact refuted_lemma. Qed.
+Print Assumptions C04_refuted_float.
+
+(* ... for every integral float below 1e21 (1.0, -0.0, 1e20, ...) *)
+Theorem C04_refuted_float_all :
+  forall fmt_float parse_float cid_str cid_parse cid_ok f,
+    f64_finite f = true -> f64_integral_small f = true -> float_text_ok f (fmt_float f) = true ->
+    jenc fmt_float cid_str dagjson_eopts cid_ok (DFloat f) = Ok (fmt_float f) /\
+    forall rest, jdecode parse_float cid_parse dagjson_dopts (fmt_float f) <> Ok (DFloat f, rest).
+Proof. exact refuted_float. Qed.
+Print Assumptions C04_refuted_float_all.
+
+(* with the quirk switched off (emitFloat always writes '.' or an exponent) the full statement holds *)
+Theorem C04_roundtrip_repaired :
+  forall fmt_float parse_float cid_str cid_parse cid_ok,
+    A1 fmt_float parse_float -> A2R fmt_float -> CID cid_str cid_parse cid_ok ->
+    roundtrip_for fmt_float parse_float cid_str cid_parse cid_ok any_float.
+Proof. exact repaired_lemma. Qed.
+Print Assumptions C04_roundtrip_repaired.
+
+(* determinism: same bytes whatever the insertion order of (unique-keyed) maps, at every level *)
+Theorem C04_deterministic :
+  forall fmt_float cid_str cid_ok v1 v2 bs,
+    uniq v1 = true -> pm v1 v2 ->
+    jenc fmt_float cid_str dagjson_eopts cid_ok v1 = Ok bs -> jenc fmt_float cid_str dagjson_eopts cid_ok v2 = Ok bs.
+Proof. exact deterministic. Qed.
+Print Assumptions C04_deterministic.
+
+(* the output is the text of the key-sorted value, whose maps are in strictly increasing bytewise key order *)
+Theorem C04_sorted_keys :
+  forall fmt_float cid_str cid_ok v bs,
+    uniq v = true -> jenc fmt_float cid_str dagjson_eopts cid_ok v = Ok bs ->
+    bs = text fmt_float cid_str (sort_maps bytes_ltb v) /\ maps_sorted (sort_maps bytes_ltb v).
+Proof. exact sorted_keys_lemma. Qed.
+Print Assumptions C04_sorted_keys.
+
+(* the parts proved concretely *)
+Theorem C04_string_roundtrip :
+  forall s rest, utf8_valid s = true -> decode_string (emit_body (length s) s ++ 34 :: rest) = Some (s, rest).
+Proof. exact string_roundtrip. Qed.
+Print Assumptions C04_string_roundtrip.
+
+Theorem C04_int_roundtrip : forall z, in_int64 z = true -> parse_int (print_int z) = PIVal z.
+Proof. exact int_roundtrip. Qed.
+Print Assumptions C04_int_roundtrip.
+
+Theorem C04_base64_roundtrip :
+  forall bs, Forall (fun b => b < 256) bs -> b64_decode_go (b64_encode bs) = Some bs.
+Proof. exact base64_roundtrip. Qed.
+Print Assumptions C04_base64_roundtrip.
+
+(* the look-ahead: on the window machine the tokens of a json_safe value (in particular a map that
+   is none of the reserved shapes, and the two reserved forms themselves) unmarshal to that value,
+   from any well-formed window *)
+Theorem C04_lookahead :
+  forall fmt_float (parse_float : bytes -> option N) cid_str cid_parse cid_ok,
+    (forall c, cid_ok c = true -> cid_parse (cid_str c) = Some c) ->
+    forall o, jd_links o = true -> jd_bytes o = true ->
+    forall good v, P fmt_float cid_str cid_parse cid_ok o good v.
+Proof. exact U. Qed.
+Print Assumptions C04_lookahead.
+
+(* the tokenizer on the encoder's text, and the window machine vs. the tokenizer-driven unmarshal *)
+Theorem C04_tokenizer :
+  forall parse_float x, js_ok parse_float x -> InCtx parse_float x.
+Proof. exact tok_value. Qed.
+Print Assumptions C04_tokenizer.
+
+(* the hypotheses A1, A2, CID are jointly satisfiable: the implications above are not vacuous *)
+Theorem C04_assumptions_consistent :
+  exists fmt_float parse_float cid_str cid_parse cid_ok,
+    A1 fmt_float parse_float /\ A2 fmt_float /\ CID cid_str cid_parse cid_ok.
+Proof. exact assumptions_consistent. Qed.
+Print Assumptions C04_assumptions_consistent.
